@@ -25,3 +25,25 @@ package conf
 //@   requires m != nil
 //@   loop 1 iteration-ensures [entry-stored-under-canonical-key] calls(toCamelCase, k) == 1 && calls(toCamelCaseInterface, m[k]) == 1 && has(ret, ret(toCamelCase)) && ret[ret(toCamelCase)] == ret(toCamelCaseInterface)
 //@   ensures [fresh-map] fresh(result)
+
+// Loading: a JSON document's keys are canonicalised at every depth and the struct's tag keys with the same
+// function, so snake_case / different-initial-case spellings meet; a YAML document is first converted to JSON and
+// then takes exactly the same path (hence the same struct for the same content); the file extension picks the
+// loader and environment expansion happens only when asked for.
+//@ func LoadFromJsonBytes
+//@   prop C05
+//@   opaque toCamelCaseKeyMap, UnmarshalJsonMap, WithCanonicalKeyFunc, Unmarshal
+//@   havoc-on Unmarshal: cells(map[string]any)
+//@   ensures [bad-json] ret(jsonx.Unmarshal) != nil ==> result == ret(jsonx.Unmarshal) && calls(UnmarshalJsonMap) == 0
+//@   ensures [both-sides-canonicalised-alike] ret(jsonx.Unmarshal) == nil ==> calls(toCamelCaseKeyMap) == 1 && calls(mapping.UnmarshalJsonMap) == 1 && arg(mapping.UnmarshalJsonMap, 0) == ret(toCamelCaseKeyMap) && arg(mapping.UnmarshalJsonMap, 1) == v && calls(mapping.WithCanonicalKeyFunc, toCamelCase) == 1 && len(arg(mapping.UnmarshalJsonMap, 2)) == 1 && arg(mapping.UnmarshalJsonMap, 2)[0] == ret(mapping.WithCanonicalKeyFunc) && result == ret(mapping.UnmarshalJsonMap)
+//@ func LoadFromYamlBytes
+//@   prop C05
+//@   opaque YamlToJson, LoadFromJsonBytes
+//@   ensures [bad-yaml] ret(encoding.YamlToJson, 1) != nil ==> result == ret(encoding.YamlToJson, 1) && calls(LoadFromJsonBytes) == 0
+//@   ensures [same-path-as-json] ret(encoding.YamlToJson, 1) == nil ==> calls(LoadFromJsonBytes, ret(encoding.YamlToJson, 0), v) == 1 && result == ret(LoadFromJsonBytes) && calls(encoding.YamlToJson, content) == 1
+//@ func Load
+//@   prop C05
+//@   opaque Errorf
+//@   loop 1 invariant -1 <= rangeindex
+//@   ensures [unreadable-file] ret(os.ReadFile, 1) != nil ==> result == ret(os.ReadFile, 1)
+//@   ensures [content-loaded-as-read-unless-env-expansion] result == nil && !local(opt).env ==> calls(os.ExpandEnv) == 0
